@@ -386,6 +386,40 @@ func (v *vCtx) runOp(ctx context.Context, op map[string]any) (res map[string]any
 	case "delete_expired_subscriptions":
 		a := actions.NewDeleteExpiredSubscriptions(prune())
 		act, results = a, func() any { r, _ := a.Results(); return r }
+	case "notify_wake":
+		// waiters[i] publish awaiters on subscription i; then WakePublishListeners(false, wake...)
+		var subs []uuid.UUID
+		var chans [][]actions.PublishNotifier
+		for i, n := range op["waiters"].([]any) {
+			id := uuid.MustParse(fmt.Sprintf("00000000-0000-0000-0000-%012d", i+1))
+			subs = append(subs, id)
+			var cs []actions.PublishNotifier
+			for k := 0; k < int(vInt(n)); k++ {
+				cs = append(cs, actions.PublishAwaiter(id))
+			}
+			chans = append(chans, cs)
+		}
+		var wake []uuid.UUID
+		for _, w := range op["wake"].([]any) {
+			wake = append(wake, subs[int(vInt(w))])
+		}
+		actions.WakePublishListeners(false, wake...)
+		closed := [][]bool{}
+		for i, cs := range chans {
+			row := []bool{}
+			for _, c := range cs {
+				select {
+				case <-c:
+					row = append(row, true)
+				default:
+					row = append(row, false)
+					actions.CancelPublishAwaiter(subs[i], c)
+				}
+			}
+			closed = append(closed, row)
+		}
+		res["closed"] = closed
+		return
 	case "dump":
 		res["state"] = v.dump(ctx)
 		return
